@@ -17,6 +17,14 @@ package main
 // Write arguments) for ever, aliases (Bytes, Next) until the next modifying call - at that moment
 // the runner drops them, exactly as the model does, so that nothing bytes.Buffer leaves undefined
 // is ever looked at.
+//
+// Records.  The encoder a user marshaller is handed is a pooled object: behaviours constructed
+// with how = "marshal" run inside a marshaller the library calls while it formats a record, and the
+// op "Recycle" ends that record and logs the next one through the same logger - the ops that follow
+// are executed on the encoder the library hands to the marshaller of the new record (as a rule the
+// very object of the previous record; the log says so: "same").  What the library has written of the
+// new record at that point (the `b` of the Recycle line) is computed from the record (bufRecFrame),
+// not read from the encoder; the reference bytes.Buffer is re-made from it.
 
 import (
 	"bytes"
@@ -1120,6 +1128,9 @@ func (r *bufRunner) step(pc, bb bufAPI, op *bufOp, obs string, last bool, idx in
 			op.N = min(ap, ab) + 1
 		}
 	}
+	if op.Kind != "" && (op.Op == "Next" || op.Op == "Read" || op.Op == "Truncate") {
+		bufNestResolve(pc, op, r.rng) // sizes relative to Len(): half / lenm1 / one / len
+	}
 	var results [2]*bufResult
 	sampled := r.rng.Intn(12) == 0
 	for k, x := range []bufAPI{pc, bb} {
@@ -1241,6 +1252,10 @@ func (r *bufRunner) begin(nw *bufOp, init []byte) {
 }
 
 func (r *bufRunner) runBehaviour(b *bufBehaviour) {
+	if b.New.How == "marshal" && bufHasRecycle(b.Ops) {
+		r.runRecords(b)
+		return
+	}
 	withSubjects(&b.New, func(pc, bb bufAPI, init []byte) {
 		r.begin(&b.New, init)
 		for i := range b.Ops {
@@ -1260,6 +1275,7 @@ func bufferMain(args []string) int {
 	r := &bufRunner{outPC: newTraceOut(args[1] + ".pc.ndjson"), outBB: newTraceOut(args[1] + ".bb.ndjson"),
 		outLock: newTraceOut(args[1] + ".lock.ndjson"), rng: rand.New(rand.NewSource(sc.Seed))}
 	r.seed = sc.Seed
+	bufRecFrame() // (while every pooled encoder is still fresh)
 	defer r.outPC.close()
 	defer r.outBB.close()
 	defer r.outLock.close()
@@ -1432,7 +1448,7 @@ func (g *bufGen) readFromOp(x bufAPI) bufOp {
 
 func (g *bufGen) readOp(x bufAPI) bufOp {
 	rng := g.rng
-	L := x.Len()
+	L := max(x.Len(), 0) // (a broken subject may report a negative length: the arguments stay legal)
 	switch k := rng.Intn(100); {
 	case k < 18:
 		return bufOp{Op: "Read", N: g.size(x)}
@@ -1477,7 +1493,7 @@ func (g *bufGen) readOp(x bufAPI) bufOp {
 
 func (g *bufGen) otherOp(x bufAPI) bufOp {
 	rng := g.rng
-	L := x.Len()
+	L := max(x.Len(), 0)
 	switch k := rng.Intn(100); {
 	case k < 16:
 		return bufOp{Op: "UnreadByte"}
@@ -1580,7 +1596,7 @@ func (g *bufGen) planOp(x bufAPI) bufOp {
 		op := bufOp{Op: "WriteTo", Calls: []bufCall{}}
 		for k := 0; k < 1+rng.Intn(2); k++ {
 			c := bufCall{Fin: []string{"ok", "ok", "short", "err", "err", "zero", "over"}[rng.Intn(7)], Nest: g.nest()}
-			c.WA = []int{0, 1, 2, x.Len(), x.Len() / 2, x.Len() + 1}[rng.Intn(6)]
+			c.WA = []int{0, 1, 2, max(x.Len(), 0), max(x.Len(), 0) / 2, max(x.Len(), 0) + 1}[rng.Intn(6)]
 			op.Calls = append(op.Calls, c)
 		}
 		return op
@@ -1785,6 +1801,10 @@ func (r *bufRunner) runRandom(g *bufGen, rd *bufRandom) {
 	steps := rd.MinLen + rng.Intn(rd.MaxLen-rd.MinLen+1)
 	nw.Hold = []int{0, 1, 2, 2, 3, 4, 4, 6, 8, 8}[rng.Intn(10)]
 	g.pokedNxt = false
+	if nw.How == "marshal" && rng.Intn(10) < 7 {
+		r.runRandomRecords(g, &nw, obs, steps)
+		return
+	}
 	withSubjects(&nw, func(pc, bb bufAPI, init []byte) {
 		r.begin(&nw, init)
 		prev := ""
@@ -1816,4 +1836,283 @@ func (r *bufRunner) runRandom(g *bufGen, rd *bufRandom) {
 			prev = op.Op
 		}
 	})
+}
+
+// ---------------------------------------------------------------- records: the pooled encoder from one record to the next
+
+var bufRec struct {
+	lg         slog.Logger
+	head, tail string
+}
+
+// bufRecMsg: the message of a follow-up record (letters only: nothing for the formatter to escape)
+func bufRecMsg(n int) string {
+	b := make([]byte, n)
+	for i := range b {
+		b[i] = 'a' + byte((i*5+n)%26)
+	}
+	return string(b)
+}
+
+// bufLogRecord logs one record with a marshalling value; fn runs inside the marshaller, on the encoder
+// the library hands to it.  A panic of the logging call is an observation (lpan), not a dead worker.
+func bufLogRecord(lg slog.Logger, msg string, fn func(pc *slog.PrintCtx)) (called bool, lpan string) {
+	defer func() {
+		if v := recover(); v != nil {
+			if s, ok := v.(string); ok && strings.HasPrefix(s, "worker:") {
+				panic(v)
+			}
+			lpan = panicClass(v)
+		}
+	}()
+	probe := marshalProbe{func(pc *slog.PrintCtx) {
+		if called {
+			return
+		}
+		called = true
+		fn(pc)
+	}}
+	lg.Info(msg, "obj", probe)
+	return
+}
+
+// bufRecFrame: the logger of the record histories and the frame of its records - what the library
+// has written of a record with message m when it calls the marshaller of the first attribute is
+// head + m + tail (JSON mode, a constant time layout).  Measured once, at the start of the worker,
+// on two records whose marshaller only looks, and cross-checked; later records are predicted from it.
+func bufRecFrame() (slog.Logger, string, string) {
+	if bufRec.lg != nil {
+		return bufRec.lg, bufRec.head, bufRec.tail
+	}
+	lg := slog.New("c19r")
+	lg.SetWriter(io.Discard)
+	lg.SetErrorWriter(io.Discard)
+	lg.SetLevel(slog.InfoLevel)
+	lg.SetJSONMode(true)
+	lg.SetTimeFormat("T")
+	see := func(msg string) string {
+		var got string
+		called, lpan := bufLogRecord(lg, msg, func(pc *slog.PrintCtx) {
+			got = pc.String()
+			if pc.Cap()-pc.Available() != len(got) {
+				panic("worker: the frame of a record cannot be measured: a fresh encoder has consumed bytes")
+			}
+		})
+		if !called || lpan != "" {
+			panic("worker: the library did not call the marshaller of a record (" + lpan + ")")
+		}
+		return got
+	}
+	m1, m2 := "Qx7Qx7", "Zy9"
+	p1, p2 := see(m1), see(m2)
+	i := strings.Index(p1, m1)
+	if i < 0 || strings.Count(p1, m1) != 1 {
+		panic("worker: the frame of a record cannot be measured: " + p1)
+	}
+	head, tail := p1[:i], p1[i+len(m1):]
+	if p2 != head+m2+tail || see("") != head+tail {
+		panic("worker: the frame of a record is not head + message + tail: " + p1 + " / " + p2)
+	}
+	bufRec.lg, bufRec.head, bufRec.tail = lg, head, tail
+	return lg, head, tail
+}
+
+func bufHasRecycle(ops []bufOp) bool {
+	for i := range ops {
+		if ops[i].Op == "Recycle" {
+			return true
+		}
+	}
+	return false
+}
+
+// recycle logs the step "the previous record ended, the library took the encoder back and handed pc to
+// a marshaller of the next record", of which it has written `prefix` so far.  Nothing is called: the
+// line carries what the marshaller sees on entry.  The reference is a bytes.Buffer made of prefix.
+func (r *bufRunner) recycle(pc *slog.PrintCtx, bb *bytes.Buffer, op *bufOp, prefix []byte, same bool, lpan string, idx int) {
+	*bb = *bytes.NewBuffer(append(make([]byte, 0, max(bufSafeCap(pc), len(prefix))), prefix...))
+	var lens [2]int
+	var conts [2][]byte
+	var oks [2]bool
+	for k, x := range []bufAPI{pc, bb} {
+		out := r.outPC
+		if k == 1 {
+			out = r.outBB
+		}
+		pool := r.pools[k]
+		pool.endWindows() // for the caller a modification like any other
+		e := &r.e
+		e.begin()
+		e.str("op", "Recycle")
+		e.num("n", op.N)
+		e.bytes("b", prefix)
+		e.boolean("keep", false)
+		e.boolean("same", same)
+		e.str("lpan", lpan)
+		n := bufSafeLen(x)
+		s, b, ok := bufSafeContents(x)
+		if ok {
+			e.str("pan", "")
+		} else {
+			e.str("pan", "runtime")
+		}
+		e.str("err", "nil")
+		e.num("len", n)
+		e.pool("hv", pool)
+		if ok {
+			e.bytes("s", s)
+			e.bytes("bs", b)
+		}
+		e.end(out)
+		lens[k], conts[k], oks[k] = n, s, ok
+	}
+	if lens[0] != lens[1] || oks[0] != oks[1] || !bytes.Equal(conts[0], conts[1]) || !r.samePools() {
+		e := &r.e
+		e.begin()
+		e.num("trace", r.trace)
+		e.num("step", idx)
+		e.str("op", "Recycle")
+		e.num("n", op.N)
+		e.boolean("pc_ok", oks[0])
+		e.num("pc_len", lens[0])
+		e.num("bb_len", lens[1])
+		e.bytes("pc_s", clipBytes(conts[0]))
+		e.bytes("bb_s", clipBytes(conts[1]))
+		e.pool("pc_hv", r.pools[0])
+		e.pool("bb_hv", r.pools[1])
+		e.end(r.outLock)
+	}
+}
+
+func bufSafeCap(x bufAPI) (n int) {
+	defer func() {
+		if recover() != nil {
+			n = 0
+		}
+	}()
+	return x.Cap()
+}
+
+// runRecords: a scripted behaviour over several records of one logger; a "Recycle" op ends the
+// current record and starts the next (N = length of its message).
+func (r *bufRunner) runRecords(b *bufBehaviour) {
+	lg, head, tail := bufRecFrame()
+	var segs [][]bufOp
+	cur := []bufOp{}
+	for _, op := range b.Ops {
+		if op.Op == "Recycle" {
+			segs = append(segs, cur)
+			cur = []bufOp{}
+		}
+		cur = append(cur, op)
+	}
+	segs = append(segs, cur)
+	bb := new(bytes.Buffer)
+	var prevPC *slog.PrintCtx
+	idx, total, lpan := 0, len(b.Ops), ""
+	for k := range segs {
+		seg := segs[k]
+		msg := "probe " + string(toBytes(b.New.B))
+		if k > 0 {
+			msg = bufRecMsg(seg[0].N)
+		}
+		last := k == len(segs)-1
+		called, lp := bufLogRecord(lg, msg, func(pc *slog.PrintCtx) {
+			if last {
+				defer pc.Reset() // leave a sane encoder to the behaviours that follow
+			}
+			if k == 0 {
+				init := append([]byte(nil), pc.Bytes()...)
+				*bb = *bytes.NewBuffer(append(make([]byte, 0, pc.Cap()), init...))
+				r.begin(&b.New, init)
+			} else {
+				rop := seg[0]
+				r.recycle(pc, bb, &rop, []byte(head+msg+tail), pc == prevPC, lpan, idx)
+				idx++
+				seg = seg[1:]
+			}
+			prevPC = pc
+			for i := range seg {
+				op := seg[i]
+				r.step(pc, bb, &op, b.Obs, idx == total-1, idx)
+				idx++
+			}
+		})
+		lpan = lp
+		if !called {
+			if k == 0 {
+				panic("worker: the library did not call the marshaller")
+			}
+			return // (the record was not formatted: nothing more to observe)
+		}
+	}
+}
+
+// runRandomRecords: a random history over 2..4 records: random calls inside the marshaller of each
+var bufRecLens = []int{0, 0, 1, 3, 9, 30, 64, 120, 400, 1500}
+
+func (r *bufRunner) runRandomRecords(g *bufGen, nw *bufOp, obs string, steps int) {
+	rng := g.rng
+	lg, head, tail := bufRecFrame()
+	nrec := 2 + rng.Intn(3)
+	bb := new(bytes.Buffer)
+	var prevPC *slog.PrintCtx
+	i, lpan, prev := 0, "", ""
+	for k := 0; k < nrec; k++ {
+		msg := "probe " + string(toBytes(nw.B))
+		rop := bufOp{Op: "Recycle", N: bufRecLens[rng.Intn(len(bufRecLens))]}
+		if k > 0 {
+			msg = bufRecMsg(rop.N)
+		}
+		upto := steps * (k + 1) / nrec
+		if rng.Intn(4) == 0 {
+			upto = i + rng.Intn(3) // a record whose marshaller does (next to) nothing
+		}
+		last := k == nrec-1
+		called, lp := bufLogRecord(lg, msg, func(pc *slog.PrintCtx) {
+			if last {
+				defer pc.Reset()
+			}
+			defer func() {
+				// (see runRandom: a PrintCtx that panics while the generator merely looks at it)
+				if v := recover(); v != nil {
+					if s, ok := v.(string); ok && strings.HasPrefix(s, "worker:") {
+						panic(v)
+					}
+					e := &r.e
+					e.begin()
+					e.num("trace", r.trace)
+					e.num("step", i)
+					e.str("op", "inspect-after-"+prev)
+					e.str("pc_pan", fmt.Sprint(v))
+					e.str("bb_pan", "")
+					e.num("pc_len", bufSafeLen(pc))
+					e.num("bb_len", bufSafeLen(bb))
+					e.end(r.outLock)
+				}
+			}()
+			if k == 0 {
+				init := append([]byte(nil), pc.Bytes()...)
+				*bb = *bytes.NewBuffer(append(make([]byte, 0, pc.Cap()), init...))
+				r.begin(nw, init)
+			} else {
+				r.recycle(pc, bb, &rop, []byte(head+msg+tail), pc == prevPC, lpan, i)
+				i++
+				prev = "Recycle"
+			}
+			prevPC = pc
+			for ; i < upto || (last && i < steps); i++ {
+				op := g.next(pc, prev, r.pools[1])
+				r.step(pc, bb, &op, obs, last && i == steps-1, i)
+				prev = op.Op
+			}
+		})
+		lpan = lp
+		if !called {
+			if k == 0 {
+				panic("worker: the library did not call the marshaller")
+			}
+			return
+		}
+	}
 }
